@@ -1,680 +1,210 @@
 /-
-Helper definitions and lemmas for C16: `DtdMapper.build_content` against the language of the
-DTD content model.
+Helper definitions and lemmas for C16: `DtdMapper.build_content` (repaired: occurrence
+indicators of SEQ / OR nodes go to the restrictions path) against the language of the DTD content
+model.
 
-DTD sites have empty paths, so `CalculateAttributePaths` does nothing; what matters is what
-`build_content` does with the occurrence indicators: the indicator of a `seq` node is dropped,
-and below an `or` node every field gets `min = 0` and the `max` of the (outermost) `or`.
+With the path mechanism the fields `DtdMapper` creates for a content tree `c` are *literally* the
+element sites `SchemaMapper` would create for the particle `c.toParticleV` (`#PCDATA` read as an
+element called `value`): `dtdSites_eq_sites`. The statements of C02 carry over.
 -/
+import XsdataModel.Gen.Occurs
+import XsdataModel.Proofs.OccursBasic
 import XsdataModel.Proofs.OccursSound
+import XsdataModel.Proofs.OccursList
 
 namespace Xs.Gen
 open Py
 
 /-! ### vocabulary of the statements -/
 
-mutual
-/-- the names of the fields `DtdMapper` creates, in order: element names, `value` for `#PCDATA` -/
-def dtdNames : DtdContent → List Str
-  | .pcdata _ => ["value".toList]
-  | .element n _ => [n]
-  | .seq _ l r => dtdNamesO l ++ dtdNamesO r
-  | .or _ l r => dtdNamesO l ++ dtdNamesO r
-def dtdNamesO : Option DtdContent → List Str
-  | none => []
-  | some c => dtdNames c
-end
+/-- the content tree as a particle, a `#PCDATA` node read as an element called `value`
+(`DEFAULT_ATTR_NAME`, the name of the field `build_value` creates) -/
+def DtdContent.toParticleV : DtdContent → Particle
+  | .pcdata o => .elem "value".toList (occurBounds o).1 (occurBounds o).2
+  | .element name o => .elem name (occurBounds o).1 (occurBounds o).2
+  | .seq o l r =>
+    let a := match l with | some c => [DtdContent.toParticleV c] | none => []
+    let b := match r with | some c => [DtdContent.toParticleV c] | none => []
+    .seq (occurBounds o).1 (occurBounds o).2 (a ++ b)
+  | .or o l r =>
+    let a := match l with | some c => [DtdContent.toParticleV c] | none => []
+    let b := match r with | some c => [DtdContent.toParticleV c] | none => []
+    .choice (occurBounds o).1 (occurBounds o).2 (a ++ b)
 
-mutual
-/-- the element names of the content model, in order -/
-def dtdElemNames : DtdContent → List Str
-  | .pcdata _ => []
-  | .element n _ => [n]
-  | .seq _ l r => dtdElemNamesO l ++ dtdElemNamesO r
-  | .or _ l r => dtdElemNamesO l ++ dtdElemNamesO r
-def dtdElemNamesO : Option DtdContent → List Str
-  | none => []
-  | some c => dtdElemNames c
-end
+/-- the names of the fields: element names, `value` for `#PCDATA`, in document order -/
+def dtdNames (c : DtdContent) : List Str := names c.toParticleV
 
-/-- field names pairwise distinct (element names, plus `value` if there is `#PCDATA`) -/
+/-- no two nodes of the content tree give a field of the same name -/
 def dtdDistinct (c : DtdContent) : Bool := decide (dtdNames c).Nodup
 
-/-- no indicator or `?` -/
-def Occur.atMostOnce : Occur → Bool
-  | .once => true
-  | .opt => true
-  | .mult => false
-  | .plus => false
-
-mutual
-/-- no `*` / `+` anywhere in the subtree -/
-def flatD : DtdContent → Bool
-  | .pcdata _ => true
-  | .element _ o => o.atMostOnce
-  | .seq o l r => o.atMostOnce && flatDO l && flatDO r
-  | .or o l r => o.atMostOnce && flatDO l && flatDO r
-def flatDO : Option DtdContent → Bool
-  | none => true
-  | some c => flatD c
-end
-
-mutual
-/-- the restriction under which the DTD theorems hold: every `seq` node carries no indicator,
-and nothing *below* an `or` node carries `*` or `+` (the `or` node itself may carry `?`, `*`,
-`+`; elements outside of choices may carry any indicator) -/
-def restricted : DtdContent → Bool
-  | .pcdata _ => true
+/-- the tree has no `#PCDATA` node. `DtdMapper.build_elements` hands `build_content` an
+element-content tree (no `#PCDATA` by the XML grammar), a mixed-content tree whose `#PCDATA` leaf
+`build_mixed_content` has removed, or the lone `#PCDATA` node (see `dtd_pcdata_only`). -/
+def noPcdata : DtdContent → Bool
+  | .pcdata _ => false
   | .element _ _ => true
-  | .seq o l r => decide (o = .once) && restrictedO l && restrictedO r
-  | .or _ l r => flatDO l && flatDO r
-def restrictedO : Option DtdContent → Bool
-  | none => true
-  | some c => restricted c
-end
+  | .seq _ l r =>
+    (match l with | some c => noPcdata c | none => true) &&
+    (match r with | some c => noPcdata c | none => true)
+  | .or _ l r =>
+    (match l with | some c => noPcdata c | none => true) &&
+    (match r with | some c => noPcdata c | none => true)
 
-mutual
-/-- the same with `?` allowed on `seq` nodes (enough for the non-list statement) -/
-def restrictedN : DtdContent → Bool
-  | .pcdata _ => true
-  | .element _ _ => true
-  | .seq o l r => o.atMostOnce && restrictedNO l && restrictedNO r
-  | .or _ l r => flatDO l && flatDO r
-def restrictedNO : Option DtdContent → Bool
-  | none => true
-  | some c => restrictedN c
-end
+/-- every `or` node has an alternative -/
+def dtdLive (c : DtdContent) : Bool := live c.toParticleV
 
-mutual
-/-- the alternatives of a choice the way property C16 restricts them: single elements without
-indicator (libxml2 nests n-ary choices as `or(a, or(b, c))`; `#PCDATA` for mixed content) -/
-def orChildStrict : DtdContent → Bool
-  | .pcdata _ => true
-  | .element _ o => decide (o = .once)
-  | .seq _ _ _ => false
-  | .or o l r => decide (o = .once) && orChildStrictO l && orChildStrictO r
-def orChildStrictO : Option DtdContent → Bool
-  | none => true
-  | some c => orChildStrict c
-end
+/-! ### `build_content` = the XSD mapper on the same particle -/
 
-mutual
-/-- property C16's own restriction, literally: `seq` nodes without indicator, choices of single
-elements without indicator -/
-def restrictedStrict : DtdContent → Bool
-  | .pcdata _ => true
-  | .element _ _ => true
-  | .seq o l r => decide (o = .once) && restrictedStrictO l && restrictedStrictO r
-  | .or _ l r => orChildStrictO l && orChildStrictO r
-def restrictedStrictO : Option DtdContent → Bool
-  | none => true
-  | some c => restrictedStrict c
-end
-
-mutual
-theorem orChildStrict_flat : (c : DtdContent) → orChildStrict c = true → flatD c = true
-  | .pcdata _ => by intro _; simp [flatD]
-  | .element _ o => by
-    intro h; simp only [orChildStrict, decide_eq_true_eq] at h; subst h; simp [flatD, Occur.atMostOnce]
-  | .seq _ _ _ => by intro h; simp [orChildStrict] at h
+theorem buildContent_eq_sitesAux : (c : DtdContent) → ∀ (path : List PathE) (next : Nat),
+    buildContent c path next = sitesAux c.toParticleV path next
+  | .pcdata o => by intro path next; simp [buildContent, DtdContent.toParticleV, sitesAux, occurBounds]
+  | .element name o => by
+    intro path next; simp [buildContent, DtdContent.toParticleV, sitesAux, occurBounds]
+  | .seq o l r => by
+    intro path next
+    cases l with
+    | none =>
+      cases r with
+      | none => simp [buildContent, DtdContent.toParticleV, sitesAux, sitesList, occurBounds]
+      | some cr =>
+        simp [buildContent, DtdContent.toParticleV, sitesAux, sitesList, occurBounds,
+          buildContent_eq_sitesAux cr]
+    | some cl =>
+      cases r with
+      | none =>
+        simp [buildContent, DtdContent.toParticleV, sitesAux, sitesList, occurBounds,
+          buildContent_eq_sitesAux cl]
+      | some cr =>
+        simp [buildContent, DtdContent.toParticleV, sitesAux, sitesList, occurBounds,
+          buildContent_eq_sitesAux cl, buildContent_eq_sitesAux cr]
   | .or o l r => by
-    intro h
-    simp only [orChildStrict, Bool.and_eq_true, decide_eq_true_eq] at h
-    obtain ⟨⟨ho, hl⟩, hr⟩ := h
-    subst ho
-    simp [flatD, Occur.atMostOnce, orChildStrictO_flat l hl, orChildStrictO_flat r hr]
-theorem orChildStrictO_flat : (l : Option DtdContent) → orChildStrictO l = true → flatDO l = true
-  | none => by intro _; simp [flatDO]
-  | some c => by intro h; simp only [orChildStrictO] at h; simp only [flatDO]; exact orChildStrict_flat c h
-end
+    intro path next
+    cases l with
+    | none =>
+      cases r with
+      | none => simp [buildContent, DtdContent.toParticleV, sitesAux, sitesList, occurBounds]
+      | some cr =>
+        simp [buildContent, DtdContent.toParticleV, sitesAux, sitesList, occurBounds,
+          buildContent_eq_sitesAux cr]
+    | some cl =>
+      cases r with
+      | none =>
+        simp [buildContent, DtdContent.toParticleV, sitesAux, sitesList, occurBounds,
+          buildContent_eq_sitesAux cl]
+      | some cr =>
+        simp [buildContent, DtdContent.toParticleV, sitesAux, sitesList, occurBounds,
+          buildContent_eq_sitesAux cl, buildContent_eq_sitesAux cr]
 
-mutual
-theorem restrictedStrict_restricted : (c : DtdContent) → restrictedStrict c = true → restricted c = true
-  | .pcdata _ => by intro _; simp [restricted]
-  | .element _ _ => by intro _; simp [restricted]
+/-- the fields `DtdMapper` creates are the element sites of the particle -/
+theorem dtdSites_eq_sites (c : DtdContent) : dtdSites c = sites c.toParticleV := by
+  rw [dtdSites_eq, sites_eq, buildContent_eq_sitesAux]
+
+/-- without `#PCDATA` the particle is the content model `lxml.etree.DTD` validates -/
+theorem toParticle_eq_toParticleV : (c : DtdContent) → noPcdata c = true →
+    c.toParticle = some c.toParticleV
+  | .pcdata o => by intro h; simp [noPcdata] at h
+  | .element name o => by intro _; simp [DtdContent.toParticle, DtdContent.toParticleV]
   | .seq o l r => by
     intro h
-    simp only [restrictedStrict, Bool.and_eq_true, decide_eq_true_eq] at h
-    obtain ⟨⟨ho, hl⟩, hr⟩ := h
-    simp [restricted, ho, restrictedStrictO_restricted l hl, restrictedStrictO_restricted r hr]
+    cases l with
+    | none =>
+      cases r with
+      | none => simp [DtdContent.toParticle, DtdContent.toParticleV]
+      | some cr =>
+        simp only [noPcdata, Bool.true_and] at h
+        simp [DtdContent.toParticle, DtdContent.toParticleV, toParticle_eq_toParticleV cr h]
+    | some cl =>
+      cases r with
+      | none =>
+        simp only [noPcdata, Bool.and_true] at h
+        simp [DtdContent.toParticle, DtdContent.toParticleV, toParticle_eq_toParticleV cl h]
+      | some cr =>
+        simp only [noPcdata, Bool.and_eq_true] at h
+        simp [DtdContent.toParticle, DtdContent.toParticleV, toParticle_eq_toParticleV cl h.1,
+          toParticle_eq_toParticleV cr h.2]
   | .or o l r => by
     intro h
-    simp only [restrictedStrict, Bool.and_eq_true] at h
-    simp [restricted, orChildStrictO_flat l h.1, orChildStrictO_flat r h.2]
-theorem restrictedStrictO_restricted : (l : Option DtdContent) → restrictedStrictO l = true →
-    restrictedO l = true
-  | none => by intro _; simp [restrictedO]
-  | some c => by
-    intro h; simp only [restrictedStrictO] at h; simp only [restrictedO]
-    exact restrictedStrict_restricted c h
-end
+    cases l with
+    | none =>
+      cases r with
+      | none => simp [DtdContent.toParticle, DtdContent.toParticleV]
+      | some cr =>
+        simp only [noPcdata, Bool.true_and] at h
+        simp [DtdContent.toParticle, DtdContent.toParticleV, toParticle_eq_toParticleV cr h]
+    | some cl =>
+      cases r with
+      | none =>
+        simp only [noPcdata, Bool.and_true] at h
+        simp [DtdContent.toParticle, DtdContent.toParticleV, toParticle_eq_toParticleV cl h]
+      | some cr =>
+        simp only [noPcdata, Bool.and_eq_true] at h
+        simp [DtdContent.toParticle, DtdContent.toParticleV, toParticle_eq_toParticleV cl h.1,
+          toParticle_eq_toParticleV cr h.2]
 
-mutual
-theorem restricted_restrictedN : (c : DtdContent) → restricted c = true → restrictedN c = true
-  | .pcdata _ => by intro _; simp [restrictedN]
-  | .element _ _ => by intro _; simp [restrictedN]
+theorem occurBounds_le (o : Occur) : (occurBounds o).1 ≤ (occurBounds o).2 := by
+  cases o <;> simp [occurBounds, buildOccurs] <;> decide
+
+/-- the four occurrence indicators of a DTD describe non-empty ranges -/
+theorem wf_toParticleV : (c : DtdContent) → wf c.toParticleV = true
+  | .pcdata o => by simp [DtdContent.toParticleV, wf, occurBounds_le]
+  | .element name o => by simp [DtdContent.toParticleV, wf, occurBounds_le]
   | .seq o l r => by
-    intro h
-    simp only [restricted, Bool.and_eq_true, decide_eq_true_eq] at h
-    obtain ⟨⟨ho, hl⟩, hr⟩ := h
-    subst ho
-    simp [restrictedN, Occur.atMostOnce, restrictedO_restrictedNO l hl, restrictedO_restrictedNO r hr]
+    cases l with
+    | none =>
+      cases r with
+      | none => simp [DtdContent.toParticleV, wf, wfList, occurBounds_le]
+      | some cr => simp [DtdContent.toParticleV, wf, wfList, occurBounds_le, wf_toParticleV cr]
+    | some cl =>
+      cases r with
+      | none => simp [DtdContent.toParticleV, wf, wfList, occurBounds_le, wf_toParticleV cl]
+      | some cr =>
+        simp [DtdContent.toParticleV, wf, wfList, occurBounds_le, wf_toParticleV cl, wf_toParticleV cr]
   | .or o l r => by
-    intro h
-    simp only [restricted] at h
-    simp only [restrictedN]; exact h
-theorem restrictedO_restrictedNO : (l : Option DtdContent) → restrictedO l = true →
-    restrictedNO l = true
-  | none => by intro _; simp [restrictedNO]
-  | some c => by
-    intro h; simp only [restrictedO] at h; simp only [restrictedNO]
-    exact restricted_restrictedN c h
-end
-
-/-! ### unfolding `buildContent` and `toParticle` -/
-
-def buildO (l : Option DtdContent) (kw : Kw) (next : Nat) : List Site × Nat :=
-  match l with
-  | some c => buildContent c kw next
-  | none => ([], next)
-
-def toPs (l : Option DtdContent) : List Particle :=
-  match l with
-  | some c => (DtdContent.toParticle c).toList
-  | none => []
-
-/-- the keyword overrides an `or` node hands down -/
-def orKw (o : Occur) (kw : Kw) (next : Nat) : Kw :=
-  { min := some (kw.min.getD 0), max := some (kw.max.getD (buildOccurs o).2),
-    choice := some (kw.choice.getD (Int.ofNat next)) }
-
-theorem buildContent_element (name : Str) (o : Occur) (kw : Kw) (next : Nat) :
-    (buildContent (.element name o) kw next).1 =
-      [{ name, index := 0, min := kw.min.getD (buildOccurs o).1, max := kw.max.getD (buildOccurs o).2,
-         choice := kw.choice }] := by
-  cases o <;> simp [buildContent, buildOccurs]
-
-theorem buildContent_pcdata (o : Occur) (kw : Kw) (next : Nat) :
-    (buildContent (.pcdata o) kw next).1 =
-      [{ name := "value".toList, index := 0, min := kw.min.getD (buildOccurs o).1,
-         max := kw.max.getD (buildOccurs o).2, choice := kw.choice }] := by
-  cases o <;> simp [buildContent, buildOccurs]
-
-theorem buildContent_seq_fst (o : Occur) (l r : Option DtdContent) (kw : Kw) (next : Nat) :
-    (buildContent (.seq o l r) kw next).1 =
-      (buildO l kw next).1 ++ (buildO r kw (buildO l kw next).2).1 := by
-  cases l <;> cases r <;> simp [buildContent, buildO]
-
-theorem buildContent_or_fst (o : Occur) (l r : Option DtdContent) (kw : Kw) (next : Nat) :
-    (buildContent (.or o l r) kw next).1 =
-      (buildO l (orKw o kw next) (next + 1)).1 ++
-        (buildO r (orKw o kw next) (buildO l (orKw o kw next) (next + 1)).2).1 := by
-  cases l <;> cases r <;> simp [buildContent, buildO, orKw]
-
-theorem toParticle_seq (o : Occur) (l r : Option DtdContent) :
-    DtdContent.toParticle (.seq o l r) =
-      some (.seq (occurBounds o).1 (occurBounds o).2 (toPs l ++ toPs r)) := by
-  cases l <;> cases r <;> simp [DtdContent.toParticle, toPs]
-
-theorem toParticle_or (o : Occur) (l r : Option DtdContent) :
-    DtdContent.toParticle (.or o l r) =
-      some (.choice (occurBounds o).1 (occurBounds o).2 (toPs l ++ toPs r)) := by
-  cases l <;> cases r <;> simp [DtdContent.toParticle, toPs]
-
-theorem toParticle_element (name : Str) (o : Occur) :
-    DtdContent.toParticle (.element name o) = some (.elem name (occurBounds o).1 (occurBounds o).2) := by
-  simp [DtdContent.toParticle]
-
-theorem toParticle_pcdata (o : Occur) : DtdContent.toParticle (.pcdata o) = none := by
-  simp [DtdContent.toParticle]
-
-theorem atMostOnce_max {o : Occur} (h : o.atMostOnce = true) : (occurBounds o).2 = 1 := by
-  cases o <;> simp_all [Occur.atMostOnce, occurBounds, buildOccurs]
-
-theorem max_le_one_atMostOnce {o : Occur} (h : (buildOccurs o).2 ≤ 1) : o.atMostOnce = true := by
-  have := maxsize_gt_one
-  cases o <;> simp_all [Occur.atMostOnce, buildOccurs] <;> omega
-
-/-! ### names -/
-
-mutual
-theorem buildContent_names : (c : DtdContent) → ∀ (kw : Kw) (next : Nat),
-    (buildContent c kw next).1.map (·.name) = dtdNames c
-  | .pcdata o => by intro kw next; rw [buildContent_pcdata]; simp [dtdNames]
-  | .element n o => by intro kw next; rw [buildContent_element]; simp [dtdNames]
-  | .seq o l r => by
-    intro kw next
-    rw [buildContent_seq_fst, List.map_append, buildO_names l, buildO_names r, dtdNames]
-  | .or o l r => by
-    intro kw next
-    rw [buildContent_or_fst, List.map_append, buildO_names l, buildO_names r, dtdNames]
-theorem buildO_names : (l : Option DtdContent) → ∀ (kw : Kw) (next : Nat),
-    (buildO l kw next).1.map (·.name) = dtdNamesO l
-  | none => by intro kw next; simp [buildO, dtdNamesO]
-  | some c => by intro kw next; simp only [buildO, dtdNamesO]; exact buildContent_names c kw next
-end
-
-theorem namesList_append (as bs : List Particle) :
-    namesList (as ++ bs) = namesList as ++ namesList bs := by
-  induction as with
-  | nil => simp [namesList]
-  | cons p ps ih => rw [List.cons_append, namesList, namesList, ih, List.append_assoc]
-
-mutual
-theorem toParticle_names : (c : DtdContent) →
-    namesList (DtdContent.toParticle c).toList = dtdElemNames c
-  | .pcdata o => by rw [toParticle_pcdata]; simp [namesList, dtdElemNames]
-  | .element n o => by rw [toParticle_element]; simp [namesList, names, dtdElemNames]
-  | .seq o l r => by
-    rw [toParticle_seq]
-    simp only [Option.toList, namesList, names, List.append_nil]
-    rw [namesList_append, toPs_names l, toPs_names r, dtdElemNames]
-  | .or o l r => by
-    rw [toParticle_or]
-    simp only [Option.toList, namesList, names, List.append_nil]
-    rw [namesList_append, toPs_names l, toPs_names r, dtdElemNames]
-theorem toPs_names : (l : Option DtdContent) → namesList (toPs l) = dtdElemNamesO l
-  | none => by simp [toPs, namesList, dtdElemNamesO]
-  | some c => by simp only [toPs, dtdElemNamesO]; exact toParticle_names c
-end
-
-mutual
-theorem elemNames_sublist : (c : DtdContent) → (dtdElemNames c).Sublist (dtdNames c)
-  | .pcdata o => by simp [dtdElemNames]
-  | .element n o => by simp [dtdElemNames, dtdNames]
-  | .seq o l r => by
-    simp only [dtdElemNames, dtdNames]
-    exact List.Sublist.append (elemNamesO_sublist l) (elemNamesO_sublist r)
-  | .or o l r => by
-    simp only [dtdElemNames, dtdNames]
-    exact List.Sublist.append (elemNamesO_sublist l) (elemNamesO_sublist r)
-theorem elemNamesO_sublist : (l : Option DtdContent) → (dtdElemNamesO l).Sublist (dtdNamesO l)
-  | none => by simp [dtdElemNamesO, dtdNamesO]
-  | some c => by simp only [dtdElemNamesO, dtdNamesO]; exact elemNames_sublist c
-end
-
-/-! ### what an enclosing `or` does to the fields; paths -/
-
-mutual
-theorem buildContent_kw : (c : DtdContent) → ∀ (kw : Kw) (next m M : Nat),
-    kw.min = some m → kw.max = some M → ∀ s ∈ (buildContent c kw next).1, s.min = m ∧ s.max = M
-  | .pcdata o => by
-    intro kw next m M h1 h2 s hs
-    rw [buildContent_pcdata, List.mem_singleton] at hs
-    subst hs; simp [h1, h2]
-  | .element n o => by
-    intro kw next m M h1 h2 s hs
-    rw [buildContent_element, List.mem_singleton] at hs
-    subst hs; simp [h1, h2]
-  | .seq o l r => by
-    intro kw next m M h1 h2 s hs
-    rw [buildContent_seq_fst, List.mem_append] at hs
-    rcases hs with hs | hs
-    · exact buildO_kw l kw _ m M h1 h2 s hs
-    · exact buildO_kw r kw _ m M h1 h2 s hs
-  | .or o l r => by
-    intro kw next m M h1 h2 s hs
-    rw [buildContent_or_fst, List.mem_append] at hs
-    have h1' : (orKw o kw next).min = some m := by simp [orKw, h1]
-    have h2' : (orKw o kw next).max = some M := by simp [orKw, h2]
-    rcases hs with hs | hs
-    · exact buildO_kw l _ _ m M h1' h2' s hs
-    · exact buildO_kw r _ _ m M h1' h2' s hs
-theorem buildO_kw : (l : Option DtdContent) → ∀ (kw : Kw) (next m M : Nat),
-    kw.min = some m → kw.max = some M → ∀ s ∈ (buildO l kw next).1, s.min = m ∧ s.max = M
-  | none => by intro kw next m M _ _ s hs; simp [buildO] at hs
-  | some c => by
-    intro kw next m M h1 h2 s hs
-    simp only [buildO] at hs
-    exact buildContent_kw c kw next m M h1 h2 s hs
-end
-
-mutual
-theorem buildContent_path : (c : DtdContent) → ∀ (kw : Kw) (next : Nat),
-    ∀ s ∈ (buildContent c kw next).1, s.path = []
-  | .pcdata o => by
-    intro kw next s hs
-    rw [buildContent_pcdata, List.mem_singleton] at hs
-    subst hs; rfl
-  | .element n o => by
-    intro kw next s hs
-    rw [buildContent_element, List.mem_singleton] at hs
-    subst hs; rfl
-  | .seq o l r => by
-    intro kw next s hs
-    rw [buildContent_seq_fst, List.mem_append] at hs
-    rcases hs with hs | hs
-    · exact buildO_path l _ _ s hs
-    · exact buildO_path r _ _ s hs
-  | .or o l r => by
-    intro kw next s hs
-    rw [buildContent_or_fst, List.mem_append] at hs
-    rcases hs with hs | hs
-    · exact buildO_path l _ _ s hs
-    · exact buildO_path r _ _ s hs
-theorem buildO_path : (l : Option DtdContent) → ∀ (kw : Kw) (next : Nat),
-    ∀ s ∈ (buildO l kw next).1, s.path = []
-  | none => by intro kw next s hs; simp [buildO] at hs
-  | some c => by
-    intro kw next s hs
-    simp only [buildO] at hs
-    exact buildContent_path c kw next s hs
-end
-
-theorem processAttrPath_nil (s : Site) (h : s.path = []) : processAttrPath s = s := by
-  obtain ⟨n, i, mn, mx, path, ch, sq⟩ := s
-  simp only at h
-  subst h
-  simp [processAttrPath_eq]
-
-/-! ### content models without `*` / `+`: every name at most once -/
-
-mutual
-/-- every `max_occurs ≤ 1` -/
-def flatP : Particle → Bool
-  | .elem _ _ mx => decide (mx ≤ 1)
-  | .seq _ mx ps => decide (mx ≤ 1) && flatPList ps
-  | .choice _ mx ps => decide (mx ≤ 1) && flatPList ps
-def flatPList : List Particle → Bool
-  | [] => true
-  | p :: ps => flatP p && flatPList ps
-end
-
-theorem flatPList_append (as bs : List Particle) :
-    flatPList (as ++ bs) = (flatPList as && flatPList bs) := by
-  induction as with
-  | nil => simp [flatPList]
-  | cons p ps ih => rw [List.cons_append, flatPList, flatPList, ih, Bool.and_assoc]
-
-/-- at most one repetition of bodies in which `n` occurs at most once -/
-theorem flat_rep {n : Str} {mn mx : Nat} {ws : List (List Str)} (hmx : mx ≤ 1)
-    (hrep : repOK ws.length mn mx) (h : ∀ x ∈ ws, x.count n ≤ 1) : ws.flatten.count n ≤ 1 := by
-  have h1 := repOK_le hrep hmx
-  have h2 := count_flatten_le n 1 ws h
-  omega
-
-mutual
-theorem flat_count : (p : Particle) → flatP p = true → (names p).Nodup →
-    ∀ w, Matches p w → ∀ n, w.count n ≤ 1
-  | .elem name mn mx => by
-    intro hf _ w hw n
-    simp only [flatP, decide_eq_true_eq] at hf
-    obtain ⟨k, hk, rfl⟩ := matches_elem.1 hw
-    rw [List.count_replicate]
-    have := repOK_le hk hf
-    split <;> omega
-  | .seq mn mx ps => by
-    intro hf hnd w hw n
-    simp only [flatP, Bool.and_eq_true, decide_eq_true_eq] at hf
-    simp only [names] at hnd
-    obtain ⟨ws, hrep, hall, rfl⟩ := matches_seq.1 hw
-    exact flat_rep hf.1 hrep (fun x hx => (flat_count_list ps hf.2 hnd).1 x (hall x hx) n)
-  | .choice mn mx ps => by
-    intro hf hnd w hw n
-    simp only [flatP, Bool.and_eq_true, decide_eq_true_eq] at hf
-    simp only [names] at hnd
-    obtain ⟨ws, hrep, hall, rfl⟩ := matches_choice.1 hw
-    exact flat_rep hf.1 hrep (fun x hx => (flat_count_list ps hf.2 hnd).2 x (hall x hx) n)
-theorem flat_count_list : (ps : List Particle) → flatPList ps = true → (namesList ps).Nodup →
-    (∀ w, SeqOnce ps w → ∀ n, w.count n ≤ 1) ∧ (∀ w, ChoiceOnce ps w → ∀ n, w.count n ≤ 1)
-  | [] => by
-    intro _ _
-    refine ⟨?_, ?_⟩
-    · intro w hw n; rw [seqOnce_nil.1 hw]; simp
-    · intro w hw; exact (choiceOnce_nil.1 hw).elim
-  | p :: ps => by
-    intro hf hnd
-    simp only [flatPList, Bool.and_eq_true] at hf
-    simp only [namesList] at hnd
-    have hp := flat_count p hf.1 (nodup_append_left hnd)
-    have hps := flat_count_list ps hf.2 (nodup_append_right hnd)
-    refine ⟨?_, ?_⟩
-    · intro w hw n
-      obtain ⟨a, b, ha, hb, rfl⟩ := seqOnce_cons.1 hw
-      rw [List.count_append]
-      by_cases hn : n ∈ names p
-      · rw [(count_zero_list ps n (nodup_append_notMem_right hnd hn)).1 b hb]
-        exact hp a ha n
-      · rw [count_zero p n hn a ha, Nat.zero_add]
-        exact hps.1 b hb n
-    · intro w hw n
-      rcases choiceOnce_cons.1 hw with h | h
-      · exact hp w h n
-      · exact hps.2 w h n
-end
-
-mutual
-theorem flatD_flatP : (c : DtdContent) → flatD c = true →
-    flatPList (DtdContent.toParticle c).toList = true
-  | .pcdata o => by intro _; rw [toParticle_pcdata]; simp [flatPList]
-  | .element n o => by
-    intro h
-    simp only [flatD] at h
-    rw [toParticle_element]
-    simp [flatPList, flatP, atMostOnce_max h]
-  | .seq o l r => by
-    intro h
-    simp only [flatD, Bool.and_eq_true] at h
-    rw [toParticle_seq]
-    simp [flatPList, flatP, atMostOnce_max h.1.1, flatPList_append, flatDO_flatP l h.1.2,
-      flatDO_flatP r h.2]
-  | .or o l r => by
-    intro h
-    simp only [flatD, Bool.and_eq_true] at h
-    rw [toParticle_or]
-    simp [flatPList, flatP, atMostOnce_max h.1.1, flatPList_append, flatDO_flatP l h.1.2,
-      flatDO_flatP r h.2]
-theorem flatDO_flatP : (l : Option DtdContent) → flatDO l = true → flatPList (toPs l) = true
-  | none => by intro _; simp [toPs, flatPList]
-  | some c => by intro h; simp only [flatDO] at h; simp only [toPs]; exact flatD_flatP c h
-end
-
-/-! ### top level (no enclosing `or`): the two soundness statements -/
-
-theorem seqOnce_singleton {p : Particle} {w : List Str} : SeqOnce [p] w ↔ Matches p w := by
-  rw [seqOnce_cons]
-  constructor
-  · rintro ⟨a, b, ha, hb, rfl⟩
-    rw [seqOnce_nil.1 hb, List.append_nil]; exact ha
-  · intro h; exact ⟨w, [], h, seqOnce_nil.2 rfl, by simp⟩
-
-mutual
-theorem dtd_bound : (c : DtdContent) → restrictedN c = true → (dtdNames c).Nodup →
-    ∀ (next : Nat) (s : Site), s ∈ (buildContent c {} next).1 → s.max ≤ 1 →
-    ∀ w, SeqOnce (DtdContent.toParticle c).toList w → w.count s.name ≤ 1
-  | .pcdata o => by
-    intro _ _ next s _ _ w hw
-    rw [toParticle_pcdata] at hw
-    rw [seqOnce_nil.1 hw]; simp
-  | .element n o => by
-    intro _ _ next s hs hmax w hw
-    rw [buildContent_element, List.mem_singleton] at hs
-    subst hs
-    simp only [Option.getD_none] at hmax
-    rw [toParticle_element] at hw
-    obtain ⟨k, hk, rfl⟩ := matches_elem.1 (seqOnce_singleton.1 hw)
-    rw [List.count_replicate]
-    simp only [BEq.rfl, if_true]
-    exact Nat.le_trans (repOK_le hk hmax) hmax
-  | .seq o l r => by
-    intro hr hnd next s hs hmax w hw
-    simp only [restrictedN, Bool.and_eq_true] at hr
-    simp only [dtdNames] at hnd
-    rw [toParticle_seq] at hw
-    obtain ⟨ws, hrep, hall, rfl⟩ := matches_seq.1 (seqOnce_singleton.1 hw)
-    rw [atMostOnce_max hr.1.1] at hrep
-    refine flat_rep (Nat.le_refl 1) hrep ?_
-    intro x hx
-    obtain ⟨a, b, ha, hb, rfl⟩ := seqOnce_append.1 (hall x hx)
-    rw [List.count_append]
-    rw [buildContent_seq_fst, List.mem_append] at hs
-    rcases hs with hs | hs
-    · have hmem : s.name ∈ dtdNamesO l := by
-        rw [← buildO_names l {} next]; exact List.mem_map.2 ⟨s, hs, rfl⟩
-      have hnot : s.name ∉ namesList (toPs r) := by
-        rw [toPs_names]
-        exact fun h => nodup_append_notMem_right hnd hmem ((elemNamesO_sublist r).subset h)
-      rw [(count_zero_list _ _ hnot).1 b hb]
-      exact dtd_boundO l hr.1.2 (nodup_append_left hnd) _ s hs hmax a ha
-    · have hmem : s.name ∈ dtdNamesO r := by
-        rw [← buildO_names r {} (buildO l {} next).2]; exact List.mem_map.2 ⟨s, hs, rfl⟩
-      have hnot : s.name ∉ namesList (toPs l) := by
-        rw [toPs_names]
-        exact fun h => nodup_append_notMem_left hnd hmem ((elemNamesO_sublist l).subset h)
-      rw [(count_zero_list _ _ hnot).1 a ha, Nat.zero_add]
-      exact dtd_boundO r hr.2 (nodup_append_right hnd) _ s hs hmax b hb
-  | .or o l r => by
-    intro hr hnd next s hs hmax w hw
-    simp only [restrictedN, Bool.and_eq_true] at hr
-    -- every field below gets the `max` of this `or`
-    have hkw : s.min = 0 ∧ s.max = (buildOccurs o).2 := by
-      rw [buildContent_or_fst, List.mem_append] at hs
-      rcases hs with hs | hs
-      · exact buildO_kw l _ _ 0 _ (by simp [orKw]) (by simp [orKw]) s hs
-      · exact buildO_kw r _ _ 0 _ (by simp [orKw]) (by simp [orKw]) s hs
-    rw [hkw.2] at hmax
-    have ho := max_le_one_atMostOnce hmax
-    have hflat : flatD (.or o l r) = true := by simp [flatD, ho, hr.1, hr.2]
-    have hnd' : (namesList (DtdContent.toParticle (.or o l r)).toList).Nodup := by
-      rw [toParticle_names]; exact List.Nodup.sublist (elemNames_sublist _) hnd
-    exact (flat_count_list _ (flatD_flatP _ hflat) hnd').1 w hw s.name
-theorem dtd_boundO : (l : Option DtdContent) → restrictedNO l = true → (dtdNamesO l).Nodup →
-    ∀ (next : Nat) (s : Site), s ∈ (buildO l {} next).1 → s.max ≤ 1 →
-    ∀ w, SeqOnce (toPs l) w → w.count s.name ≤ 1
-  | none => by intro _ _ next s hs; simp [buildO] at hs
-  | some c => by
-    intro hr hnd next s hs hmax w hw
-    simp only [restrictedNO] at hr
-    simp only [dtdNamesO] at hnd
-    simp only [buildO] at hs
-    simp only [toPs] at hw
-    exact dtd_bound c hr hnd next s hs hmax w hw
-end
-
-mutual
-theorem dtd_once : (c : DtdContent) → restricted c = true → (dtdNames c).Nodup →
-    ∀ (next : Nat) (s : Site), s ∈ (buildContent c {} next).1 → s.name ∈ dtdElemNames c →
-    1 ≤ s.min → s.max ≤ 1 →
-    ∀ w, SeqOnce (DtdContent.toParticle c).toList w → w.count s.name = 1
-  | .pcdata o => by
-    intro _ _ next s _ hn
-    simp [dtdElemNames] at hn
-  | .element n o => by
-    intro _ _ next s hs _ hmin hmax w hw
-    rw [buildContent_element, List.mem_singleton] at hs
-    subst hs
-    simp only [Option.getD_none] at hmax hmin
-    rw [toParticle_element] at hw
-    obtain ⟨k, hk, rfl⟩ := matches_elem.1 (seqOnce_singleton.1 hw)
-    rw [List.count_replicate]
-    simp only [BEq.rfl, if_true]
-    have h1 := repOK_le hk hmax
-    have h2 := hk.1
-    simp only [occurBounds] at h1 h2
-    omega
-  | .seq o l r => by
-    intro hr hnd next s hs hn hmin hmax w hw
-    simp only [restricted, Bool.and_eq_true, decide_eq_true_eq] at hr
-    simp only [dtdNames] at hnd
-    simp only [dtdElemNames, List.mem_append] at hn
-    obtain ⟨⟨ho, hrl⟩, hrr⟩ := hr
-    subst ho
-    rw [toParticle_seq] at hw
-    obtain ⟨ws, hrep, hall, rfl⟩ := matches_seq.1 (seqOnce_singleton.1 hw)
-    have h1 := repOK_le hrep (Nat.le_refl 1)
-    have h2 := hrep.1
-    simp only [occurBounds, buildOccurs] at h1 h2
-    have hlen : ws.length = 1 := by omega
-    obtain ⟨x, rfl⟩ := List.length_eq_one_iff.1 hlen
-    simp only [List.flatten_cons, List.flatten_nil, List.append_nil]
-    obtain ⟨a, b, ha, hb, rfl⟩ := seqOnce_append.1 (hall x List.mem_cons_self)
-    rw [List.count_append]
-    rw [buildContent_seq_fst, List.mem_append] at hs
-    rcases hs with hs | hs
-    · have hmem : s.name ∈ dtdNamesO l := by
-        rw [← buildO_names l {} next]; exact List.mem_map.2 ⟨s, hs, rfl⟩
-      have hnotr : s.name ∉ dtdElemNamesO r :=
-        fun h => nodup_append_notMem_right hnd hmem ((elemNamesO_sublist r).subset h)
-      have hnot : s.name ∉ namesList (toPs r) := by rw [toPs_names]; exact hnotr
-      rw [(count_zero_list _ _ hnot).1 b hb]
-      exact dtd_onceO l hrl (nodup_append_left hnd) _ s hs (hn.resolve_right hnotr) hmin hmax a ha
-    · have hmem : s.name ∈ dtdNamesO r := by
-        rw [← buildO_names r {} (buildO l {} next).2]; exact List.mem_map.2 ⟨s, hs, rfl⟩
-      have hnotl : s.name ∉ dtdElemNamesO l :=
-        fun h => nodup_append_notMem_left hnd hmem ((elemNamesO_sublist l).subset h)
-      have hnot : s.name ∉ namesList (toPs l) := by rw [toPs_names]; exact hnotl
-      rw [(count_zero_list _ _ hnot).1 a ha, Nat.zero_add]
-      exact dtd_onceO r hrr (nodup_append_right hnd) _ s hs (hn.resolve_left hnotl) hmin hmax b hb
-  | .or o l r => by
-    intro _ _ next s hs _ hmin
-    have hkw : s.min = 0 ∧ s.max = (buildOccurs o).2 := by
-      rw [buildContent_or_fst, List.mem_append] at hs
-      rcases hs with hs | hs
-      · exact buildO_kw l _ _ 0 _ (by simp [orKw]) (by simp [orKw]) s hs
-      · exact buildO_kw r _ _ 0 _ (by simp [orKw]) (by simp [orKw]) s hs
-    omega
-theorem dtd_onceO : (l : Option DtdContent) → restrictedO l = true → (dtdNamesO l).Nodup →
-    ∀ (next : Nat) (s : Site), s ∈ (buildO l {} next).1 → s.name ∈ dtdElemNamesO l →
-    1 ≤ s.min → s.max ≤ 1 →
-    ∀ w, SeqOnce (toPs l) w → w.count s.name = 1
-  | none => by intro _ _ next s hs; simp [buildO] at hs
-  | some c => by
-    intro hr hnd next s hs hn hmin hmax w hw
-    simp only [restrictedO] at hr
-    simp only [dtdNamesO] at hnd
-    simp only [dtdElemNamesO] at hn
-    simp only [buildO] at hs
-    simp only [toPs] at hw
-    exact dtd_once c hr hnd next s hs hn hmin hmax w hw
-end
+    cases l with
+    | none =>
+      cases r with
+      | none => simp [DtdContent.toParticleV, wf, wfList, occurBounds_le]
+      | some cr => simp [DtdContent.toParticleV, wf, wfList, occurBounds_le, wf_toParticleV cr]
+    | some cl =>
+      cases r with
+      | none => simp [DtdContent.toParticleV, wf, wfList, occurBounds_le, wf_toParticleV cl]
+      | some cr =>
+        simp [DtdContent.toParticleV, wf, wfList, occurBounds_le, wf_toParticleV cl, wf_toParticleV cr]
 
 /-! ### the statements for `occurs (dtdSites c)` -/
 
 theorem dtdSites_names (c : DtdContent) : (dtdSites c).map (·.name) = dtdNames c := by
-  rw [dtdSites_eq, withIndex_names, buildContent_names]
+  rw [dtdSites_eq_sites, sites_names]; rfl
 
-/-- with distinct field names the three handlers leave the DTD fields untouched -/
 theorem occurs_dtdSites (c : DtdContent) (hd : (dtdNames c).Nodup) :
-    occurs (dtdSites c) = some (dtdSites c) := by
-  rw [occurs_nodup _ (by rw [dtdSites_names]; exact hd)]
-  congr 1
-  conv => rhs; rw [← List.map_id (dtdSites c)]
-  apply List.map_congr_left
-  intro s hs
-  rw [dtdSites_eq] at hs
-  obtain ⟨s', hs', i, rfl⟩ := mem_withIndex hs
-  exact processAttrPath_nil _ (buildContent_path c {} 1 s' hs')
+    occurs (dtdSites c) = (dtdSites c).map processAttrPath := by
+  rw [dtdSites_eq_sites]; exact occurs_sites _ hd
 
-theorem mem_occurs_dtdSites {c : DtdContent} (hd : (dtdNames c).Nodup) {ss : List Site}
-    (h : occurs (dtdSites c) = some ss) {s : Site} (hs : s ∈ ss) :
-    ∃ s' ∈ (buildContent c {} 1).1, s.name = s'.name ∧ s.max = s'.max ∧ s.min = s'.min := by
-  rw [occurs_dtdSites c hd, Option.some.injEq] at h
-  subst h
-  rw [dtdSites_eq] at hs
-  obtain ⟨s', hs', i, rfl⟩ := mem_withIndex hs
-  exact ⟨s', hs', rfl, rfl, rfl⟩
+theorem dtd_nonlist_sound_core (c : DtdContent) (hp : noPcdata c = true) (hd : (dtdNames c).Nodup)
+    (p : Particle) (hcp : c.toParticle = some p) (w : List Str) (hw : Matches p w)
+    (s : Site) (hs : s ∈ occurs (dtdSites c))
+    (hl : s.isList = false) : w.count s.name ≤ 1 := by
+  rw [toParticle_eq_toParticleV c hp, Option.some.injEq] at hcp
+  subst hcp
+  rw [dtdSites_eq_sites] at hs
+  exact nonlist_sound_core _ hd w hw s hs hl
 
-theorem dtd_nonlist_sound_core (c : DtdContent) (hr : restrictedN c = true)
-    (hd : (dtdNames c).Nodup) (p : Particle) (hp : c.toParticle = some p) (w : List Str)
-    (hw : Matches p w) (ss : List Site) (h : occurs (dtdSites c) = some ss) (s : Site)
-    (hs : s ∈ ss) (hl : s.isList = false) : w.count s.name ≤ 1 := by
-  obtain ⟨s', hs', hname, hmax, _⟩ := mem_occurs_dtdSites hd h hs
-  have hle : s.max ≤ 1 := by
-    simp only [Site.isList, decide_eq_false_iff_not] at hl; omega
-  rw [hname]
-  refine dtd_bound c hr hd 1 s' hs' (by omega) w ?_
-  rw [hp]; exact seqOnce_singleton.2 hw
+theorem dtd_required_sound_core (c : DtdContent) (hp : noPcdata c = true) (hd : (dtdNames c).Nodup)
+    (p : Particle) (hcp : c.toParticle = some p) (w : List Str) (hw : Matches p w)
+    (s : Site) (hs : s ∈ occurs (dtdSites c))
+    (hr : 1 ≤ s.min) (hl : s.isList = false) : w.count s.name = 1 := by
+  rw [toParticle_eq_toParticleV c hp, Option.some.injEq] at hcp
+  subst hcp
+  rw [dtdSites_eq_sites] at hs
+  exact required_sound_core _ hd (wf_toParticleV c) w hw s hs hr hl
 
-theorem dtd_required_sound_core (c : DtdContent) (hr : restricted c = true)
-    (hd : (dtdNames c).Nodup) (p : Particle) (hp : c.toParticle = some p) (w : List Str)
-    (hw : Matches p w) (ss : List Site) (h : occurs (dtdSites c) = some ss) (s : Site)
-    (hs : s ∈ ss) (hn : s.name ∈ dtdElemNames c) (hmin : 1 ≤ s.min) (hl : s.isList = false) :
-    w.count s.name = 1 := by
-  obtain ⟨s', hs', hname, hmax, hmin'⟩ := mem_occurs_dtdSites hd h hs
-  have hle : s.max ≤ 1 := by
-    simp only [Site.isList, decide_eq_false_iff_not] at hl; omega
-  rw [hname] at hn ⊢
-  refine dtd_once c hr hd 1 s' hs' hn (by omega) (by omega) w ?_
-  rw [hp]; exact seqOnce_singleton.2 hw
+theorem dtd_list_needed_core (c : DtdContent) (hp : noPcdata c = true) (hd : (dtdNames c).Nodup)
+    (hlive : dtdLive c = true) (p : Particle) (hcp : c.toParticle = some p)
+    (s : Site) (hs : s ∈ occurs (dtdSites c))
+    (hl : s.isList = true) : ∃ w, Matches p w ∧ 2 ≤ w.count s.name := by
+  rw [toParticle_eq_toParticleV c hp, Option.some.injEq] at hcp
+  subst hcp
+  rw [dtdSites_eq_sites] at hs
+  exact list_needed_core _ hd (wf_toParticleV c) hlive s hs hl
 
 end Xs.Gen
